@@ -151,6 +151,8 @@ def asInt : PV → Option Int
 def evalBinop (op : BinOp) (a b : PV) : Except PErr PV :=
   match a, b, op with
   | .bytes x, .bytes y, .add => .ok (.bytes (x ++ y))       -- concatenation of bytes / bytearray values
+  | .list xs, .sc (.py (.int k)), .mul =>                    -- `[a, b] * k`: repetition of a list literal (empty for k <= 0)
+      .ok (.list ((List.replicate k.toNat xs).flatten))
   | _, _, _ =>
   match asInt a, asInt b with
   | some x, some y =>
